@@ -22,12 +22,14 @@ package main
 import (
 	"encoding/json"
 	"fmt"
+	"io"
 	"math/rand"
 	"reflect"
 	"sort"
 	"strings"
 	"time"
 
+	"github.com/compose-spec/compose-go/v2/dotenv"
 	"gopkg.in/yaml.v3"
 
 	"verifharness/core"
@@ -74,14 +76,15 @@ var c11Sites = []c11SiteDef{
 var c11Origins = []string{"main", "override", "extends", "extends-file", "include"}
 
 type c11Scenario struct {
-	Origin   string         `json:"origin"`
-	Spell    map[string]int `json:"spell"`     // site → I/D/O
-	Layer    map[string]int `json:"layer"`     // unit or leaf → 0 (the file that defines `a`) / 1 (override file or extended base)
-	Absent   []string       `json:"absent"`    // units left out of service `a` altogether
-	ListDeps bool           `json:"list_deps"` // write `depends_on: [b]` when both of its sites are implicit
-	NetList  bool           `json:"net_list"`  // write the D spelling of service networks as a list
-	NullRes  bool           `json:"null_res"`  // write a resource without attributes as `key:` (null) instead of `{}`
-	NoDefUse bool           `json:"no_def_use"` // no service is attached to `default` (all use `other` / network_mode)
+	Origin    string         `json:"origin"`
+	Spell     map[string]int `json:"spell"`      // site → I/D/O
+	Layer     map[string]int `json:"layer"`      // unit or leaf → 0 (the file that defines `a`) / 1 (override file or extended base)
+	Absent    []string       `json:"absent"`     // units left out of service `a` altogether
+	ListDeps  bool           `json:"list_deps"`  // write `depends_on: [b]` when both of its sites are implicit
+	NetForm   int            `json:"net_form"`   // the D spelling of service networks: 0 `{default: null}`, 1 `[default]`, 2 `{}` (declared but empty)
+	OthersOff bool           `json:"others_off"` // every other service is attached to `other` only, so that `a` alone decides about `default`
+	NullRes   bool           `json:"null_res"`   // write a resource without attributes as `key:` (null) instead of `{}`
+	NoDefUse  bool           `json:"no_def_use"` // no service is attached to `default` (all use `other` / network_mode)
 }
 
 // c11Build renders the files of a scenario; implicit=true turns every D into I.
@@ -99,9 +102,11 @@ func c11Build(sc c11Scenario, implicit bool) (files map[string]string, configFil
 				l2[k] = 0
 			}
 		case "extends":
+			// the base is itself a service of the project and the carrier of `a`'s networks: it cannot be kept off `default`
+			sc.OthersOff = false
 			// the base is a service of the same (validated) file: its depends_on entry must be complete on its own
 			l2["depends_on.required"] = l2["depends_on.condition"]
-			if sc.NoDefUse {
+			if sc.NoDefUse || sc.OthersOff {
 				l2["service.networks"] = 1
 			}
 		case "override":
@@ -114,8 +119,8 @@ func c11Build(sc c11Scenario, implicit bool) (files map[string]string, configFil
 	}
 	sp := func(id string) int {
 		s := sc.Spell[id]
-		if sc.NoDefUse && id == "default.network" && s == spD {
-			return spI // a declared but unused network stays: only meaningful when some service uses `default`
+		if id == "default.network" && s == spD && (sc.NoDefUse || (sc.OthersOff && sc.Spell["service.networks"] == spO)) {
+			return spI // a declared but unused network stays: writing it out is only "the default" when some service uses `default`
 		}
 		if implicit && s == spD {
 			return spI
@@ -179,6 +184,9 @@ func c11Build(sc c11Scenario, implicit bool) (files map[string]string, configFil
 			at("env_file")["env_file"] = []any{"e.env"}
 		} else {
 			e := map[string]any{"path": "e.env"}
+			if sc.NullRes {
+				e["format"] = "raw" // a sibling attribute of the defaulted one
+			}
 			val(e, "required", "env_file.required")
 			at("env_file")["env_file"] = []any{e}
 		}
@@ -203,9 +211,12 @@ func c11Build(sc c11Scenario, implicit bool) (files map[string]string, configFil
 	}
 	switch sp("service.networks") {
 	case spD:
-		if sc.NetList {
+		switch sc.NetForm % 3 {
+		case 1:
 			at("service.networks")["networks"] = []any{"default"}
-		} else {
+		case 2:
+			at("service.networks")["networks"] = map[string]any{}
+		default:
 			at("service.networks")["networks"] = map[string]any{"default": nil}
 		}
 	case spO:
@@ -304,7 +315,7 @@ func c11Build(sc c11Scenario, implicit bool) (files map[string]string, configFil
 	}
 	resMain := map[string]any{
 		"networks": map[string]any{"n1": named(nil, "network.name"), "other": emptyRes()},
-		"volumes":  map[string]any{"v1": named(nil, "volume.name"), "ext": named(map[string]any{"external": true}, "external.name")},
+		"volumes":  map[string]any{"v1": named(nil, "volume.name"), "ext": named(map[string]any{"external": true}, "external.name"), "ext2": map[string]any{"external": "true"}},
 		"configs":  map[string]any{"cfg": named(map[string]any{"content": "hello"}, "config.name")},
 	}
 	if s := sp("default.network"); s != spI {
@@ -325,7 +336,7 @@ func c11Build(sc c11Scenario, implicit bool) (files map[string]string, configFil
 	others := map[string]any{}
 	for _, n := range []string{"b", "c", "d", "e"} {
 		o := map[string]any{"image": "i"}
-		if sc.NoDefUse {
+		if sc.NoDefUse || sc.OthersOff {
 			o["networks"] = []any{"other"}
 		}
 		others[n] = o
@@ -367,18 +378,21 @@ func c11Build(sc c11Scenario, implicit bool) (files map[string]string, configFil
 		a1["labels"] = map[string]any{"l": "v"}
 		files["override.yaml"] = c11YAML(over)
 		configFiles = []string{"compose.yaml", "override.yaml"}
-	case "extends", "extends-file":
+	case "extends", "extends-file", "extends-file-subdir":
 		a1["image"] = "i"
 		if sc.Origin == "extends" {
 			a0["extends"] = map[string]any{"service": "base0"}
 			others["base0"] = a1
-			if sc.NoDefUse {
+			if sc.NoDefUse || sc.OthersOff {
 				if _, has := a1["networks"]; !has {
 					if _, has := a1["network_mode"]; !has {
 						a1["network_mode"] = "none"
 					}
 				}
 			}
+		} else if sc.Origin == "extends-file-subdir" {
+			a0["extends"] = map[string]any{"service": "base0", "file": "sub/base.yaml"}
+			files["sub/base.yaml"] = c11YAML(map[string]any{"services": map[string]any{"base0": a1}})
 		} else {
 			a0["extends"] = map[string]any{"service": "base0", "file": "base.yaml"}
 			files["base.yaml"] = c11YAML(map[string]any{"services": map[string]any{"base0": a1}})
@@ -397,7 +411,7 @@ func c11Build(sc c11Scenario, implicit bool) (files map[string]string, configFil
 		inc["networks"] = map[string]any{"other": emptyRes()}
 		files["inc.yaml"] = c11YAML(inc)
 		z := map[string]any{"image": "i"}
-		if sc.NoDefUse {
+		if sc.NoDefUse || sc.OthersOff {
 			z["network_mode"] = "host"
 		}
 		main["include"] = []any{"inc.yaml"}
@@ -711,7 +725,8 @@ func c11RandomScenario(r *rand.Rand) c11Scenario {
 		}
 	}
 	sc.ListDeps = r.Intn(2) == 0
-	sc.NetList = r.Intn(2) == 0
+	sc.NetForm = r.Intn(3)
+	sc.OthersOff = r.Intn(4) == 0
 	sc.NullRes = r.Intn(2) == 0
 	if r.Intn(5) == 0 {
 		sc.NoDefUse = true
@@ -723,6 +738,10 @@ func c11RandomScenario(r *rand.Rand) c11Scenario {
 }
 
 func init() {
+	// compose-go ships no env_file format parser; register a trivial one so that `format:` can sit next to `required:`
+	dotenv.RegisterFormat("raw", func(r io.Reader, _ string, _ func(string) (string, bool)) (map[string]string, error) {
+		return map[string]string{"K": "v"}, nil // what the default parser reads from the generated e.env
+	})
 	core.Register("c11.meta", &core.CheckDef{
 		Real:    c11RealMeta,
 		Timeout: 30 * time.Second,
@@ -766,7 +785,7 @@ func c11Oracle(ctx *core.Ctx) {
 						// the site under test lives in the other layer than its siblings in the second variant
 						if variant == 1 {
 							sc.Layer[s.ID] = 1 - layer
-							sc.ListDeps, sc.NetList, sc.NullRes = true, true, true
+							sc.ListDeps, sc.NetForm, sc.NullRes = true, 1, true
 						}
 						sc.Spell[s.ID] = spell
 						ctx.Count(fmt.Sprintf("meta-exh-site:%s", s.ID))
@@ -775,12 +794,43 @@ func c11Oracle(ctx *core.Ctx) {
 					}
 				}
 			}
+			// `a` is the only service that can bring `default` in: every way of saying so
+			for form := 0; form < 3; form++ {
+				for _, spell := range []int{spI, spD} {
+					oa := c11NewScenario(origin)
+					for _, k := range c11LayerKeys {
+						oa.Layer[k] = layer
+					}
+					oa.OthersOff, oa.NetForm = true, form
+					oa.Spell["service.networks"] = spell
+					ctx.Count("meta-exh-only-a-uses-default")
+					ctx.Add("c11.meta", oa)
+				}
+			}
 			// nobody uses `default`: it must not appear
 			nd := c11NewScenario(origin)
 			nd.NoDefUse = true
 			nd.Spell["service.networks"] = spO
 			ctx.Count("meta-exh-no-default-use")
 			ctx.Add("c11.meta", nd)
+		}
+	}
+	// an extended base that lives in another directory: only the build section (the other units carry paths
+	// whose anchoring is C12's business)
+	for _, site := range []string{"build.context", "build.dockerfile"} {
+		for layer := 0; layer < 2; layer++ {
+			sc := c11NewScenario("extends-file-subdir")
+			for _, k := range c11LayerKeys {
+				sc.Layer[k] = layer
+			}
+			for _, u := range c11Units {
+				if u != "build" {
+					sc.Absent = append(sc.Absent, u)
+				}
+			}
+			sc.Spell[site] = spD
+			ctx.Count("meta-exh-extends-subdir")
+			ctx.Add("c11.meta", sc)
 		}
 	}
 	// all subsets written explicitly with the default / with another value: seeded random
